@@ -6,18 +6,20 @@
    torch.linalg.svd is an oracle: every theorem quantifies over ALL answers (U, S, Vh) that satisfy
    its contract [svd_ok M U S Vh]  (U, Vh orthogonal, S sorted >= 0, M = U diag(S) Vh).
 
-   Faithful model, so the property's svdtf clause is REFUTED (C17_svdtf_refuted,
-   C17_svdtf_reflection_pessimal): whenever det(U Vh) = -1 the code negates the whole matrix,
-   which is the rotation with the LARGEST residual.  The repaired formula (kabsch_rot) is proved
-   optimal (C17_kabsch_optimal) and svdtf is proved optimal on the other branch
-   (C17_svdtf_optimal_partial).  svdstf is proved optimal on every branch. *)
+   The model is the current source (after fix 23d9fa1 in /repo: svdtf flips only the last singular
+   direction, R = U diag(1,1,1-2 mask) Vh): every clause of the property is proved for svdtf and
+   svdstf as coded, on both branches of the reflection test.  The source before the fix negated the
+   whole matrix when det(U Vh) = -1; it is kept as svdtf_old with its refutation
+   (C17_svdtf_old_refuted, C17_svdtf_old_reflection_pessimal, C17_svdtf_old_call_refuted) as history;
+   the harness replays that witness on every run. *)
 From Coq Require Import Reals List.
 Import ListNotations.
 From PV Require Import Base.Num Model.LieGroup Model.Controller Model.Align Proofs.LieGroup Proofs.Align.
 Local Open Scope R_scope.
 #[local] Remove Hints NumQ NumZ : typeclass_instances.
 
-(* --- the rotation svdtf hands to mat2SE3 is orthogonal with det = +1, for every oracle answer *)
+(* --- the rotation svdtf hands to mat2SE3 is orthogonal with det = +1, for every oracle answer
+   (both branches of the `|det + 1| < 1e-6` test) *)
 Theorem C17_svdtf_proper : forall U Vh : mat3R, orth U -> orth Vh -> rot (svdtf_rot U Vh).
 Proof. exact svdtf_proper. Qed.
 
@@ -44,43 +46,42 @@ Theorem C17_kabsch_optimal : forall (src tgt : cloudR) U S Vh,
     <= resid (rigid_apply A t) src tgt.
 Proof. exact kabsch_optimal. Qed.
 
-(* --- svdtf as coded: optimal when the oracle answer has det(U Vh) = +1 (partial: the clause is
-   false on the other branch, see the refutation) *)
-Theorem C17_svdtf_optimal_partial : forall (src tgt : cloudR) U S Vh,
-  sizes_ok src tgt = true -> svd_ok (svdtf_M src tgt) U S Vh -> mdet3 (mmul3 U Vh) = 1 ->
+(* --- svdtf as coded: for EVERY oracle answer (both branches of the reflection test) its (R, t)
+   minimises the sum of squared residuals over all rigid transforms *)
+Theorem C17_svdtf_optimal : forall (src tgt : cloudR) U S Vh,
+  sizes_ok src tgt = true -> svd_ok (svdtf_M src tgt) U S Vh ->
   forall A t, rot A ->
     resid (rigid_apply (fst (svdtf_mat src tgt U Vh)) (snd (svdtf_mat src tgt U Vh))) src tgt
     <= resid (rigid_apply A t) src tgt.
-Proof. exact svdtf_optimal_partial. Qed.
-(* --- svdtf as coded, reflection branch: its rotation is the WORST one (every rotation, with its
-   own best translation, has a residual that is not larger) *)
-Theorem C17_svdtf_reflection_pessimal : forall (src tgt : cloudR) U S Vh,
+Proof. exact svdtf_optimal. Qed.
+(* --- history (source before 23d9fa1): in the reflection branch the old rotation was the WORST one
+   (every rotation, with its own best translation, has a residual that is not larger) *)
+Theorem C17_svdtf_old_reflection_pessimal : forall (src tgt : cloudR) U S Vh,
   sizes_ok src tgt = true -> svd_ok (svdtf_M src tgt) U S Vh -> mdet3 (mmul3 U Vh) = -1 ->
   forall A, rot A ->
     resid (rigid_apply A (vsub (centroid tgt) (mvmul A (centroid src)))) src tgt
-    <= resid (rigid_apply (fst (svdtf_mat src tgt U Vh)) (snd (svdtf_mat src tgt U Vh))) src tgt.
-Proof. exact svdtf_reflection_pessimal. Qed.
-(* --- refutation of "svdtf is optimal / reproduces exact correspondences" on the faithful model:
+    <= resid (rigid_apply (fst (svdtf_mat_old src tgt U Vh)) (snd (svdtf_mat_old src tgt U Vh))) src tgt.
+Proof. exact svdtf_old_reflection_pessimal. Qed.
+(* --- history: refutation of "the old svdtf is optimal / reproduces exact correspondences":
    three coplanar points, target = source; for the admissible SVD U = I, S = (6,2,0),
-   Vh = diag(1,1,-1) the identity has residual 0 and svdtf's answer has residual 32 *)
-Theorem C17_svdtf_refuted :
+   Vh = diag(1,1,-1) the identity has residual 0 and the old answer has residual 32 *)
+Theorem C17_svdtf_old_refuted :
   exists (src tgt : cloudR) U S Vh A t,
     sizes_ok src tgt = true /\ svd_ok (svdtf_M src tgt) U S Vh /\ rot A /\
     resid (rigid_apply A t) src tgt = 0 /\
-    resid (rigid_apply (fst (svdtf_mat src tgt U Vh)) (snd (svdtf_mat src tgt U Vh))) src tgt = 32.
-Proof. exact svdtf_refuted. Qed.
+    resid (rigid_apply (fst (svdtf_mat_old src tgt U Vh)) (snd (svdtf_mat_old src tgt U Vh))) src tgt = 32.
+Proof. exact svdtf_old_refuted. Qed.
 
 (* --- exact correspondences under a true rigid transform are reproduced point for point (no
-   non-collinearity needed for this form); partial for svdtf as coded (det(U Vh) = +1) *)
+   non-collinearity needed for this form), by Kabsch and by svdtf as coded *)
 Theorem C17_kabsch_exact_recovery : forall (src tgt : cloudR) U S Vh A0 t0,
   tgt = map (rigid_apply A0 t0) src -> src <> [] -> rot A0 -> svd_ok (svdtf_M src tgt) U S Vh ->
   Forall2 (fun p q => rigid_apply (fst (kabsch_mat src tgt U Vh)) (snd (kabsch_mat src tgt U Vh)) p = q) src tgt.
 Proof. exact kabsch_exact_recovery. Qed.
-Theorem C17_svdtf_exact_recovery_partial : forall (src tgt : cloudR) U S Vh A0 t0,
+Theorem C17_svdtf_exact_recovery : forall (src tgt : cloudR) U S Vh A0 t0,
   tgt = map (rigid_apply A0 t0) src -> src <> [] -> rot A0 -> svd_ok (svdtf_M src tgt) U S Vh ->
-  mdet3 (mmul3 U Vh) = 1 ->
   Forall2 (fun p q => rigid_apply (fst (svdtf_mat src tgt U Vh)) (snd (svdtf_mat src tgt U Vh)) p = q) src tgt.
-Proof. exact svdtf_exact_recovery_partial. Qed.
+Proof. exact svdtf_exact_recovery. Qed.
 
 (* --- svdstf (Umeyama), as coded: proper rotation, scale >= 0, and the similarity transform
    minimises the sum of squared residuals over all (c >= 0, rotation A, t); every oracle answer,
@@ -144,12 +145,14 @@ Theorem C17_svdtf_returns_proper_rigid : forall (svd : mat3R -> mat3R * vec3R * 
     rot (SO3_matrix (snd T)) /\
     forall p, SE3_act T p = rigid_apply (fst (svdtf_mat src tgt U Vh)) (snd (svdtf_mat src tgt U Vh)) p.
 Proof. exact svdtf_returns. Qed.
-(* --- and the refutation for the function as called *)
-Theorem C17_svdtf_call_refuted :
-  exists (svd : mat3R -> mat3R * vec3R * mat3R) (src tgt : cloudR) T,
+(* --- history: the old function as called moved identical clouds apart (residual 32) for an oracle
+   answer meeting the contract; the repaired function maps them onto each other (residual 0) *)
+Theorem C17_svdtf_old_call_refuted :
+  exists (svd : mat3R -> mat3R * vec3R * mat3R) (src tgt : cloudR) T T',
     sizes_ok src tgt = true /\ svd_contract svd (svdtf_M src tgt) /\
-    svdtf svd src tgt = Some T /\ resid (SE3_act SE3_id) src tgt = 0 /\ resid (SE3_act T) src tgt = 32.
-Proof. exact svdtf_call_refuted. Qed.
+    svdtf_old svd src tgt = Some T /\ resid (SE3_act SE3_id) src tgt = 0 /\ resid (SE3_act T) src tgt = 32 /\
+    svdtf svd src tgt = Some T' /\ resid (SE3_act T') src tgt = 0.
+Proof. exact svdtf_old_call_refuted. Qed.
 (* --- svdstf AS CALLED (mat2Sim3 with check=True: cube root of det, "not full rank" test, the ten
    allclose tests): returns a valid Sim3 element acting as p |-> s R p + t whenever the Umeyama
    scale exceeds mat2Sim3's 1e-5 threshold *)
@@ -164,21 +167,19 @@ Theorem C17_svdstf_returns_similarity : forall (svd : mat3R -> mat3R * vec3R * m
                                        (snd (svdstf_mat ws src tgt U D V)) p.
 Proof. exact svdstf_returns. Qed.
 
-(* --- ICP: one pass of the loop body (knn oracle with its contract, svdtf as called) does not
-   increase the sum -- hence the mean -- of squared closest-point distances; partial: the SVD
-   answer of this pass must not fall into svdtf's reflection branch (on planar clouds it does, and
-   the clause fails: known finding) *)
-Theorem C17_icp_pass_monotone_partial :
+(* --- ICP: one pass of the loop body (knn oracle with its contract, svdtf as called, any SVD
+   answer meeting the contract) does not increase the sum -- hence the mean -- of squared
+   closest-point distances, for every cloud (planar included) *)
+Theorem C17_icp_pass_monotone :
   forall (svd : mat3R -> mat3R * vec3R * mat3R) (knn : cloudR -> cloudR -> list (R * nat))
          (temporal target temporal' : cloudR) (err : R),
   temporal <> [] ->
   knn_ok temporal target (map snd (knn temporal target)) ->
   knn_ok temporal' target (map snd (knn temporal' target)) ->
-  (let M := svdtf_M temporal (gather3 target (map snd (knn temporal target))) in
-   svd_contract svd M /\ let '(U, _, Vh) := svd M in mdet3 (mmul3 U Vh) = 1) ->
+  svd_contract svd (svdtf_M temporal (gather3 target (map snd (knn temporal target)))) ->
   icp_body svd knn temporal target = Some (err, temporal') ->
   cpd temporal' target (map snd (knn temporal' target)) <= cpd temporal target (map snd (knn temporal target)).
-Proof. exact icp_pass_monotone_partial. Qed.
+Proof. exact icp_pass_monotone. Qed.
 
 (* the hypotheses are satisfiable: the witness cloud with its SVD meets the contract *)
 Example C17_contract_satisfiable :
@@ -187,14 +188,14 @@ Proof. exact wit_contract. Qed.
 
 Print Assumptions C17_svdtf_proper. Print Assumptions C17_rotation_trace_identity.
 Print Assumptions C17_rotation_trace_ge_m1. Print Assumptions C17_kabsch_trace_optimal.
-Print Assumptions C17_kabsch_optimal. Print Assumptions C17_svdtf_optimal_partial.
-Print Assumptions C17_svdtf_reflection_pessimal. Print Assumptions C17_svdtf_refuted.
-Print Assumptions C17_kabsch_exact_recovery. Print Assumptions C17_svdtf_exact_recovery_partial.
+Print Assumptions C17_kabsch_optimal. Print Assumptions C17_svdtf_optimal.
+Print Assumptions C17_svdtf_old_reflection_pessimal. Print Assumptions C17_svdtf_old_refuted.
+Print Assumptions C17_kabsch_exact_recovery. Print Assumptions C17_svdtf_exact_recovery.
 Print Assumptions C17_svdstf_proper. Print Assumptions C17_svdstf_optimal.
 Print Assumptions C17_svdstf_noscale_optimal. Print Assumptions C17_svdstf_exact_recovery.
 Print Assumptions C17_epnp_true_control_points_in_nullspace.
 Print Assumptions C17_epnp_alpha_reproduces_points.
 Print Assumptions C17_mat2SO3_of_rotation. Print Assumptions C17_svdtf_returns_proper_rigid.
-Print Assumptions C17_svdtf_call_refuted. Print Assumptions C17_svdstf_returns_similarity.
-Print Assumptions C17_icp_pass_monotone_partial.
+Print Assumptions C17_svdtf_old_call_refuted. Print Assumptions C17_svdstf_returns_similarity.
+Print Assumptions C17_icp_pass_monotone.
 Print Assumptions C17_contract_satisfiable.
